@@ -343,7 +343,7 @@ def trajectory_plans(tier, seed):
         add('cubic', 'Toric3DCode', [3, 3, 3],
             list(low_weight_errors(n, 2)), chunk=120)
     # seeded Z-only and full Pauli errors at several rates
-    n_rand = 160 if tier == 'quick' else 2000
+    n_rand = 160 if tier == 'quick' else 8000
     for kind, codes in FAMILIES.items():
         for cname in codes:
             for size in sizes_for(kind, tier)[:4 if tier == 'quick'
@@ -362,7 +362,8 @@ def trajectory_plans(tier, seed):
                     errs.append(random_error(rng, n, rate, alpha))
                 knobs = None
                 if kind == 'rotated':
-                    knobs = {'max_rounds': rng.choice([1, 2, 4])}
+                    knobs = {'max_rounds': rng.choice(
+                        [1, 2, 4] if tier == 'quick' else [1, 2, 4, 32])}
                 elif rng.random() < 0.3:
                     knobs = {'max_sweep_factor': rng.choice([1, 4])}
                 add(kind, cname, size, errs, knobs,
